@@ -34,7 +34,7 @@ TECHNIQUE = "property-based testing (Hypothesis): model-based oracle over genera
 
 
 def cases(tier):
-    return 3200 if tier == "quick" else 480000
+    return 3200 if tier == "quick" else 160000
 
 
 def strategy(hazards):
